@@ -2,8 +2,8 @@ import NdnModel.CodecIO
 import NdnModel.CertTime
 /-  C16 protocol:
     `C16 cert <keyName hexlist> <issuer hex> <version hex> <pubkey hex> <(five signer-info values)> <issue> <reserved:sighex>`
-       → `ok W=<wire> C=<covered> N=<name list> | ok P=<values>` | `err <PyErr>` | `skip year<1000`
-    `C16 times <issue>` → `ok <notBefore hex> <notAfter hex>` | `err <PyErr>` | `skip year<1000`
+       → `ok W=<wire> C=<covered> N=<name list> | ok P=<values>` | `err <PyErr>`
+    `C16 times <issue>` → `ok <notBefore hex> <notAfter hex>` | `err <PyErr>`
        <issue> = `derive:<ord>,<sec>,<us>,<fold 0|1>,<offset seconds | n>,<other offset seconds>,<expire_sec>`
                  | `req:<ord>,<sec>,<us>` | `self:<ord>,<sec>,<us>`
        (the model computes the calendar fields of the validity period itself; the tzinfo of an aware start_time is
@@ -16,7 +16,7 @@ import NdnModel.CertTime
        consecutive days of one month written once (year, month, first day, number of days)
     `C16 cal add <inst> <n>` / `cal utc <inst> <offset seconds>` / `cal addyears <inst> <k>`
        → `ok <ord>,<sec>,<us>;<y>,<mo>,<d>,<h>,<mi>,<s>` | `err <PyErr>`
-    `C16 cal fmt <inst>` → `ok <hex>` | `skip year<1000` -/
+    `C16 cal fmt <inst>` → `ok <hex>` -/
 namespace Ndn.Drv.C16
 open Ndn Ndn.Codec Ndn.Packet Ndn.Cert Ndn.Calendar
 
@@ -78,8 +78,6 @@ def rangeRuns (lo count : Nat) : List (List Nat) :=
       if r.1 == y && r.2.1 == m && r.2.2 == d0 + c then [y, m, d0, c + 1] :: rest else [r.1, r.2.1, r.2.2, 1] :: acc
     | _ => [r.1, r.2.1, r.2.2, 1] :: acc) []).reverse
 
-def inFmtDomain (t : Instant) : Bool := decide (minFmtOrdinal ≤ t.ord)
-
 mutual
 partial def hideMarkers : List Schema → List Value → List Value
   | s :: ss, v :: vs => hideMarker s v :: hideMarkers ss vs
@@ -91,12 +89,6 @@ partial def hideMarker : Schema → Value → Value
   | _, v => v
 end
 
-/-- `none` = the validity period leaves the years 1000..9999 where the text model holds -/
-def domainOk (i : Issue) : Bool :=
-  match i.instants with
-  | .ok (s, e) => inFmtDomain s && inFmtDomain e
-  | .error _ => true
-
 def handle (args : List String) : String :=
   match args with
   | ["cert", kn, iss, ver, pk, si, is, sg] =>
@@ -105,7 +97,6 @@ def handle (args : List String) : String :=
           | [r, h] => (do let n ← r.toNat?; let b ← fromHex h; pure (SignerOut.mk n b) : Option SignerOut)
           | _ => none) with
     | some k, some i, some v, some p, some s, some t, some g =>
-      if !domainOk t then "skip year<1000" else
       match issueCert k i v p s t g with
       | .ok m =>
         "ok W=" ++ toHex m.wire ++ " C=" ++ toHexList m.covered ++ " N=" ++ toHexList m.finalName ++ " | " ++
@@ -117,7 +108,6 @@ def handle (args : List String) : String :=
   | ["times", is] =>
     match readIssue is with
     | some t =>
-      if !domainOk t then "skip year<1000" else
       match t.validity with
       | .ok (a, b) => "ok " ++ toHex a ++ " " ++ toHex b
       | .error e => "err " ++ e.name
@@ -149,7 +139,7 @@ def handle (args : List String) : String :=
     | _, _ => "bad-op"
   | ["cal", "fmt", t] =>
     match readInstant t with
-    | some t => if inFmtDomain t then "ok " ++ toHex (fmtInstant t) else "skip year<1000"
+    | some t => "ok " ++ toHex (fmtInstant t)
     | none => "bad-op"
   | _ => "bad-op"
 
